@@ -394,3 +394,23 @@ def gen_greedy(rng, N, nmax=6):
         s.update(op="greedy", deg=d, _band=gen.band_of(sum(d), g["_genus"]), _debt=debt)
         out.append(s)
     return out
+
+
+def gen_parking(rng, N):
+    out = []
+    for _ in range(N):
+        n = rng.randint(0, 6)
+        kind = rng.random()
+        if kind < 0.4:
+            seq = [rng.randint(1, max(1, n)) for _ in range(n)]
+        elif kind < 0.6:
+            # a genuine parking function: sort-compatible then shuffled
+            seq = [rng.randint(1, i + 1) for i in range(n)]
+            rng.shuffle(seq)
+        else:
+            seq = [rng.randint(-1, n + 2) for _ in range(rng.choice([n, n, max(0, n - 1), n + 1]))]
+        nn = None if rng.random() < 0.5 else rng.choice([len(seq), len(seq), n, n + 1, 0, -1, 3])
+        out.append({"op": "parking", "seq": seq, "n": nn})
+    for k in range(-1, 6):
+        out.append({"op": "parking_gen", "n": k})
+    return out
